@@ -45,6 +45,8 @@ extern crate thiserror;
 mod builders;
 mod errors;
 mod model_evaluator;
+#[cfg(dmntk_verif)]
+pub mod verif;
 
 #[cfg(test)]
 mod tests;
